@@ -137,6 +137,17 @@ def _inline_once_temps(fn):
                         st.value = prev.value
                         out[-1] = st
                         continue
+                    # .. or into the local a loop runs over / a branch tests (evaluated once, first)
+                    if isinstance(prev, ast.Assign) and len(prev.targets) == 1 and isinstance(prev.targets[0], ast.Name) and count.get(prev.targets[0].id) == 2 \
+                            and prev.targets[0].id not in params:
+                        if isinstance(st, ast.For) and isinstance(st.iter, ast.Name) and st.iter.id == prev.targets[0].id:
+                            st.iter = prev.value
+                            out[-1] = st
+                            continue
+                        if isinstance(st, ast.If) and isinstance(st.test, ast.Name) and st.test.id == prev.targets[0].id:
+                            st.test = prev.value
+                            out[-1] = st
+                            continue
                     out.append(st)
                 setattr(node, fld, out)
         for hd in getattr(node, "handlers", []) or []:
@@ -149,6 +160,17 @@ def straighten(fn):
     """a copy of a function with tuple assignments split, `if c: T = a else: T = b` as a conditional expression, successive stores into
     a fresh dict as the display, and a value hoisted into a once-used local back in place (the everyday re-spellings of ONE store)"""
     return _inline_once_temps(_fold_cond_assigns(_join_dict_stores(_untuple(copy.deepcopy(fn)))))
+
+
+def straighten_module(pkg, file):
+    """a copy of module `file` with every function of it straightened (see straighten), cached"""
+    cache = pkg.__dict__.setdefault("_c20_straight_mod", {})
+    if file not in cache:
+        mod = copy.deepcopy(pkg.modules[file])
+        for fn in [x for x in ast.walk(mod) if isinstance(x, (ast.FunctionDef, ast.AsyncFunctionDef))]:
+            _inline_once_temps(_fold_cond_assigns(_join_dict_stores(_untuple(fn))))
+        cache[file] = mod
+    return cache[file]
 
 
 def straightened(pkg, cls, meth, keep=()):
